@@ -76,6 +76,23 @@ def run(ctx):
             ga = f.get("rgargs") or f.get("gargs") or []
             if m and ga and ga[0] == VEC_TY:
                 muts.append((m.group(1), b, bb, t))
+    # any other mutable access: a call handed `&mut Vec<(ColumnType, bool)>` / `&mut [(ColumnType, bool)]` (get_mut,
+    # iter_mut, index_mut, deref_mut, swap, fill, ...) or a store through `&mut (ColumnType, bool)`
+    named = {(b.path, bb) for n, b, bb, t in muts}
+    for b in prog.non_test_fns():
+        if re.search(r"as std::(fmt::Debug|clone::Clone|default::Default)", b.path):
+            continue
+        for bb, t in b.calls():
+            at = (t.get("arg_tys") or [""])[0]
+            if at.startswith("&mut ") and VEC_TY in at and (b.path, bb) not in named and "indirect" not in t["func"]:
+                n = cname(t["func"]).split("::")[-1]
+                ctx.ob("C16.per-statement-storage", b.path == nxt.path and n in ("clear", "push"),
+                       "the bound-type table is accessed mutably (%s) in %s: only the rebind branch of the parameter iterator may change it" % (n, b.path),
+                       fn=b.path, construct="mutable-access", callee=n, where=b.where(bb))
+        for bb, i, s_ in b.stmts():
+            if s_["k"] == "assign" and s_["lhs"]["p"] and s_["lhs"]["p"][0] == "deref" and b.local_ty(s_["lhs"]["l"]).startswith("&mut " + VEC_TY):
+                ctx.ob("C16.per-statement-storage", False, "an entry of the bound-type table is overwritten in place in %s" % b.path, fn=b.path, construct="element-store",
+                       where=b.where(bb, i))
     for n, b, bb, t in muts:
         ctx.ob("C16.per-statement-storage", b.path == nxt.path, "bound types are mutated (%s) outside the parameter iterator: %s" % (n, b.path),
                fn=b.path, construct="mutation", callee=n, where=b.where(bb))
